@@ -88,6 +88,9 @@ async def open_unix_server_transport(spec: str) -> Transport:
         def connection_made(self, transport):
             peer_name = transport.get_extra_info('peer_name')
             logger.debug('connection from %s', peer_name)
+            # The parser is shared by all connections: a previous client may have
+            # been cut off in the middle of a packet.
+            self.packet_source.parser.reset()
             self.packet_sink.transport = transport
 
         # Called when the client is disconnected
